@@ -1,5 +1,6 @@
 """C10 — editing a machine's topology never corrupts the bonds it does not touch."""
 import json
+import random
 import re
 import common as C
 
@@ -136,6 +137,98 @@ def run_ops(doms, ops):
     return C.jsonl(out)[0]
 
 
+def cli_part(res, rnd, a):
+    """the edit flags of cmd/bondmachine applied to a machine file, against the same edits made through the API (which the model
+    is tied to): deleting a list of inputs/outputs removes exactly the named ones whatever the order they are listed in"""
+    import os, shutil, subprocess, tempfile
+    import c07
+    c07.build_tools()
+    viol, done = [], 0
+    hist = {}
+    work = tempfile.mkdtemp(prefix="verif-c10-")
+    try:
+        for k in range(6 if a.tier == "quick" else 40):
+            nproc = rnd.choice([1, 2, 3])
+            procs = []
+            for p in range(nproc):
+                N, M = rnd.choice([1, 2, 3]), rnd.choice([1, 2, 3])
+                procs.append({"arch": {"R": 1, "N": N, "M": M, "L": 0, "O": 2, "ops": ["i2r", "j", "nop", "r2o"], "mode": "ha", "rsize": 8}, "prog": ["nop", "j 0"]})
+            nin, nout = rnd.randint(1, 4), rnd.randint(2, 5)
+            ins = ["p%di%d" % (p, i) for p, pr in enumerate(procs) for i in range(pr["arch"]["N"])] + ["o%d" % i for i in range(nout)]
+            outs = ["p%do%d" % (p, i) for p, pr in enumerate(procs) for i in range(pr["arch"]["M"])] + ["i%d" % i for i in range(nin)]
+            bonds = []
+            for e in ins:
+                if rnd.random() < 0.75:
+                    bonds.append([e, rnd.choice(outs)])
+            spec = {"rsize": 8, "procs": procs, "inputs": nin, "outputs": nout, "bonds": bonds}
+            saved = C.jsonl(C.sh([C.BMH, "c11", "save"], input=json.dumps({"bm": spec}) + "\n").stdout)[0]
+            if saved.get("err") or not saved.get("json"):
+                raise C.Broken("c11 save: %s" % saved.get("err"))
+            d = os.path.join(work, "m%d" % k)
+            os.mkdir(d)
+            open(os.path.join(d, "bm.json"), "w").write(saved["json"])
+            cur_in, cur_out, nlinks = nin, nout, len(ins)
+            cli, ops = [], []
+            for _ in range(rnd.randint(3, 7)):
+                c = rnd.randrange(7)
+                if c == 0:
+                    n_ = rnd.randint(1, 2)
+                    cli.append(["-add-inputs", str(n_)]); ops += [{"op": "AddInput"}] * n_; cur_in += n_
+                elif c == 1:
+                    n_ = rnd.randint(1, 2)
+                    cli.append(["-add-outputs", str(n_)]); ops += [{"op": "AddOutput"}] * n_; cur_out += n_; nlinks += n_
+                elif c in (2, 3) and (cur_in if c == 2 else cur_out) > 0:
+                    cnt = cur_in if c == 2 else cur_out
+                    lst = [rnd.randrange(cnt + 1) for _ in range(rnd.randint(1, 3))]      # any order, repeats, one past the end
+                    cli.append(["-del-inputs" if c == 2 else "-del-outputs", ",".join(str(x) for x in lst)])
+                    keep = []
+                    for x in lst:
+                        if x not in keep and x < cnt:
+                            keep.append(x)
+                    for x in sorted(keep, reverse=True):
+                        ops.append({"op": "DelInput" if c == 2 else "DelOutput", "i": x})
+                    if c == 2:
+                        cur_in -= len(keep)
+                    else:
+                        cur_out -= len(keep); nlinks -= len(keep)
+                elif c == 4:
+                    e1 = rnd.choice(["p%di%d" % (rnd.randrange(nproc), rnd.randrange(3)), "o%d" % rnd.randrange(max(cur_out, 1))])
+                    e2 = rnd.choice(["p%do%d" % (rnd.randrange(nproc), rnd.randrange(3)), "i%d" % rnd.randrange(max(cur_in, 1))])
+                    pair = [e1, e2] if rnd.random() < 0.5 else [e2, e1]
+                    cli.append(["-add-bond", ",".join(pair)]); ops.append({"op": "AddBond", "a": pair[0], "b": pair[1]})
+                elif c == 5 and nlinks > 0:
+                    lst = [rnd.randrange(nlinks) for _ in range(rnd.randint(1, 2))]
+                    cli.append(["-del-bonds", ",".join(str(x) for x in lst)]); ops += [{"op": "DelBond", "i": x} for x in lst]
+                else:
+                    dom = rnd.randrange(nproc)
+                    cli.append(["-add-processor", str(dom)]); ops.append({"op": "AddProc", "i": dom}); nlinks += procs[dom]["arch"]["N"]
+            meta = {"machine": spec, "commands": [" ".join(x) for x in cli]}
+            res.count_case(meta, nontrivial=True)
+            bad = None
+            for args in cli:
+                hist[args[0]] = hist.get(args[0], 0) + 1
+                p = subprocess.run([c07.tool("bondmachine"), "-bondmachine-file", "bm.json"] + args, cwd=d, env=C.GOENV,
+                                   stdout=subprocess.PIPE, stderr=subprocess.STDOUT, text=True, timeout=120)
+                if p.returncode != 0:
+                    bad = "bondmachine %s fails: %s" % (" ".join(args), p.stdout[-300:])
+                    break
+            if bad:
+                viol.append((bad, meta))
+                continue
+            final = open(os.path.join(d, "bm.json")).read()
+            got, want = C.jsonl(C.sh([C.BMH, "c10json"], input=json.dumps({"json": final, "ops": []}) + "\n" +
+                                     json.dumps({"json": saved["json"], "ops": ops}) + "\n").stdout)
+            done += 1
+            keys = ("inputs", "outputs", "procs", "iin", "iout", "links", "bonds")
+            diff = [x for x in keys if got.get(x) != want.get(x)]
+            if diff:
+                viol.append(("after the commands %s the machine file has %s = %s; the same edits through the API give %s"
+                             % (meta["commands"], diff[0], got.get(diff[0]), want.get(diff[0])), meta))
+    finally:
+        shutil.rmtree(work, ignore_errors=True)
+    return viol, done, hist
+
+
 def run(res, a):
     failed = C.proof_part(res, "C10", trusted=[
         "harness/c10.go + lib/c10.py (name parser, term printer) as the tie",
@@ -178,6 +271,11 @@ def run(res, a):
         res.violation("C10 %s at edit %d of history %s" % (CODES.get(code, "API listing inconsistent with raw fields"),
                                                           step, json.dumps(small["ops"])),
                       {"doms": small["doms"], "ops": small["ops"], "failures": fl, "seed": c.get("seed")})
-    if failed and not bad:
+    cli_viol, cli_done, cli_hist = cli_part(res, random.Random(a.seed), a)
+    cov["command_line_histories_compared"] = cli_done
+    cov["command_line_flag_histogram"] = cli_hist
+    for text, meta in cli_viol[:3]:
+        res.violation("C10 " + text, meta)
+    if failed and not bad and not cli_viol:
         res.violation("C10 proof obligation no longer checks: %s" % failed, {"obligation": failed}, nofail=True)
     return res.finish("proof")
